@@ -472,26 +472,47 @@ pub struct SecureChunk {
     generation: u32,
     pool_id: u32,
     canary: u32,
+    /// Alignment of the data area (the pool's configured alignment)
+    align: usize,
+}
+
+/// Memory layout of a chunk: `[padding][header][data][padding][footer]`.
+///
+/// The data area starts at a multiple of `align` (at least the header's own alignment), the
+/// header sits immediately before it and the footer at the first suitably aligned address
+/// after it.  Returns the allocation layout, the offset of the data area from the start of
+/// the allocation and the offset of the footer from the start of the data area.
+fn chunk_layout(size: usize, align: usize) -> Option<(Layout, usize, usize)> {
+    let align = align.max(std::mem::align_of::<ChunkHeader>());
+    if !align.is_power_of_two() {
+        return None;
+    }
+    let header_size = std::mem::size_of::<ChunkHeader>();
+    let footer_align = std::mem::align_of::<ChunkFooter>();
+    let data_offset = header_size.checked_add(align - 1)? & !(align - 1);
+    let footer_offset = size.checked_add(footer_align - 1)? & !(footer_align - 1);
+    let total_size = data_offset
+        .checked_add(footer_offset)?
+        .checked_add(std::mem::size_of::<ChunkFooter>())?;
+    let layout = Layout::from_size_align(total_size, align).ok()?;
+    Some((layout, data_offset, footer_offset))
 }
 
 impl SecureChunk {
     /// Create a new secure chunk with validation metadata
-    fn new(size: usize, generation: u32, pool_id: u32) -> Result<Self> {
+    fn new(size: usize, generation: u32, pool_id: u32, align: usize) -> Result<Self> {
         let canary = fastrand::u32(..);
         let header_size = std::mem::size_of::<ChunkHeader>();
-        let footer_size = std::mem::size_of::<ChunkFooter>();
-        let total_size = header_size + size + footer_size;
-
-        let layout = Layout::from_size_align(total_size, 8)
-            .map_err(|_| ZiporaError::invalid_data("Invalid layout for chunk allocation"))?;
+        let (layout, data_offset, footer_offset) = chunk_layout(size, align)
+            .ok_or_else(|| ZiporaError::invalid_data("Invalid layout for chunk allocation"))?;
 
         let raw_ptr = unsafe { alloc(layout) };
         if raw_ptr.is_null() {
             return Err(ZiporaError::out_of_memory(size));
         }
 
-        // Initialize header
-        let header = raw_ptr as *mut ChunkHeader;
+        // Initialize header (immediately before the data area)
+        let header = unsafe { raw_ptr.add(data_offset - header_size) } as *mut ChunkHeader;
         unsafe {
             (*header) = ChunkHeader {
                 magic: CHUNK_HEADER_MAGIC,
@@ -505,7 +526,7 @@ impl SecureChunk {
         }
 
         // Initialize footer
-        let footer_ptr = unsafe { raw_ptr.add(header_size + size) as *mut ChunkFooter };
+        let footer_ptr = unsafe { raw_ptr.add(data_offset + footer_offset) as *mut ChunkFooter };
         unsafe {
             (*footer_ptr) = ChunkFooter {
                 canary,
@@ -515,7 +536,7 @@ impl SecureChunk {
         }
 
         // Return pointer to data area (after header)
-        let data_ptr = unsafe { raw_ptr.add(header_size) };
+        let data_ptr = unsafe { raw_ptr.add(data_offset) };
 
         Ok(Self {
             ptr: unsafe { NonNull::new_unchecked(data_ptr) },
@@ -523,6 +544,7 @@ impl SecureChunk {
             generation,
             pool_id,
             canary,
+            align,
         })
     }
 
@@ -565,7 +587,9 @@ impl SecureChunk {
         }
 
         // Validate footer
-        let footer_ptr = unsafe { self.ptr.as_ptr().add(self.size) as *const ChunkFooter };
+        let footer_align = std::mem::align_of::<ChunkFooter>();
+        let footer_offset = (self.size + footer_align - 1) & !(footer_align - 1);
+        let footer_ptr = unsafe { self.ptr.as_ptr().add(footer_offset) as *const ChunkFooter };
         let footer = unsafe { &*footer_ptr };
 
         if footer.magic != CHUNK_FOOTER_MAGIC {
@@ -629,16 +653,11 @@ impl SecureChunk {
             }
         }
 
-        let header_size = std::mem::size_of::<ChunkHeader>();
-        let footer_size = std::mem::size_of::<ChunkFooter>();
-        let total_size = header_size + self.size + footer_size;
-
-        let raw_ptr = unsafe { self.ptr.as_ptr().sub(header_size) };
-        // SAFETY: Layout::from_size_align() cannot fail because:
-        // 1. total_size was successfully used to allocate this chunk
-        // 2. Alignment of 8 is always valid (power of 2)
-        // 3. self.size was validated during allocation
-        let layout = Layout::from_size_align(total_size, 8).unwrap();
+        // SAFETY: chunk_layout() cannot fail because the same size and alignment were
+        // successfully used to allocate this chunk
+        let (layout, data_offset, _) = chunk_layout(self.size, self.align)
+            .expect("Layout invariant violated: chunk was allocated with this size and alignment");
+        let raw_ptr = unsafe { self.ptr.as_ptr().sub(data_offset) };
 
         unsafe {
             dealloc(raw_ptr, layout);
@@ -1081,7 +1100,12 @@ impl SecureMemoryPool {
         }
 
         // Fall back to regular allocation
-        let mut chunk = SecureChunk::new(self.config.chunk_size, generation, self.pool_id)?;
+        let mut chunk = SecureChunk::new(
+            self.config.chunk_size,
+            generation,
+            self.pool_id,
+            self.config.alignment,
+        )?;
 
         // SIMD-optimized memory zeroing on allocation if configured
         if self.config.zero_on_alloc {
@@ -1272,6 +1296,7 @@ impl SecureMemoryPool {
                 generation,
                 pool_id: self.pool_id,
                 canary: header.canary,
+                align: self.config.alignment,
             };
 
             if let Err(e) = chunk.validate() {
